@@ -730,7 +730,11 @@ func blkName(b *rspec.LinuxBlockIO) string {
 }
 
 // ToOCISpec builds the OCI spec of the container as submitted by the runtime.
-func ToOCISpec(c Container) *rspec.Spec {
+func ToOCISpec(c Container) *rspec.Spec { return ToOCISpecOrd(c, false) }
+
+// ToOCISpecOrd lists the original's mounts in reverse key order when rev is set
+// (children before their parents): the order of the runtime's own mounts is an input.
+func ToOCISpecOrd(c Container, rev bool) *rspec.Spec {
 	c = c.Norm()
 	s := &rspec.Spec{
 		Version:  "1.0.2",
@@ -755,7 +759,13 @@ func ToOCISpec(c Container) *rspec.Spec {
 	for _, k := range c.Env.Keys() {
 		s.Process.Env = append(s.Process.Env, k+"="+c.Env[k])
 	}
-	for _, k := range c.Mnt.Keys() {
+	mkeys := c.Mnt.Keys()
+	if rev {
+		for i, j := 0, len(mkeys)-1; i < j; i, j = i+1, j-1 {
+			mkeys[i], mkeys[j] = mkeys[j], mkeys[i]
+		}
+	}
+	for _, k := range mkeys {
 		m := mountFromVal(k, c.Mnt[k])
 		s.Mounts = append(s.Mounts, rspec.Mount{Destination: m.Destination, Type: m.Type, Source: m.Source, Options: m.Options})
 	}
